@@ -74,7 +74,7 @@ class C04(Prop):
             'dtype None/float32/float64/bfloat16; and (kind "multi") the same on W in {2,3,4} simulated ranks with every divisor as worker '
             'count, bucketed or not, symmetric or not, drawn schedule. Oracle: the factor recurrence of vkit/refkfac fed with layer inputs and '
             'output gradients recorded by the harness on a twin model without K-FAC, compared with state_dict() factors after every step on '
-            'every rank (relative Frobenius tolerance 4 (updates+1) max(1, sqrt(rows)/4) eps(factor dtype)); exact symmetry; PSD; dtype == '
+            'every rank (relative Frobenius tolerance 16 (updates+1) max(1, sqrt(rows)) eps(factor dtype)); exact symmetry; PSD; dtype == '
             'requested (or the training dtype when None); bit-identical factors across non-update steps and eval passes. Non-trivial: >= 2 '
             'factor updates and (accumulation > 1 or W > 1 or a conv layer or a non-update step in between).')
     assumptions = ['the convolution normalisation (rows divided by the number of output positions, mean over N*positions rows) is the '
@@ -157,7 +157,7 @@ class C04(Prop):
             ref.mini = 0
             updates += int(was_factor)
             gap |= not was_factor
-            tol = 4 * (updates + 1) * max(1.0, math.sqrt(max_rows) / 4) * eps
+            tol = 16 * (updates + 1) * max(1.0, math.sqrt(max_rows)) * eps
             for rank in range(W):
                 fac = trains[rank][t]['factors']
                 for n in names:
@@ -177,7 +177,7 @@ class C04(Prop):
                         if not torch.equal(g64, g64.t()):
                             return violation(f'step {t}: factor {which} of {n} on rank {rank} is not exactly symmetric (symmetry_aware={case["symmetry"]}, cap={case["cap"]})', 'factor-asymmetric', labels=labels)
                         lmin = torch.linalg.eigvalsh(g64).min().item()
-                        if lmin < -4 * eps * max(g64.norm().item(), 1e-30) * math.sqrt(g64.shape[0]):
+                        if lmin < -64 * eps * max(g64.norm().item(), 1e-30) * g64.shape[0]:
                             return violation(f'step {t}: factor {which} of {n} has eigenvalue {lmin:.3e}', 'factor-not-psd', labels=labels)
                         err = (g64 - refF).norm().item() / max(refF.norm().item(), 1e-300)
                         worst = max(worst, err / tol)
